@@ -6,7 +6,8 @@ NOTES = ("Contract-based deductive verification with an own VC generator (pyvc);
          "(z3, cvc5 for unknowns); the thorough tier repeats that with a 300 s budget, lets cvc5 re-decide every quantifier-free query, re-compiles the Lean lemma and adds two "
          "bounded cross-checks of the trusted base that are never counted as proof: seeded differential tests of the assumed library facts (native/axiom_tests.py) and run-time "
          "evaluation of the model bundle's contracts on the real code (native/rt_model.py). A refuted obligation is replayed natively (R1 scripts per bundle, the run-time "
-         "monitor, two falsification searches); without a failing input the VIOLATION line ends no-failing-input-found.")
+         "monitor, two falsification searches); without a failing input the VIOLATION line ends no-failing-input-found. ./check fixes PYTHONHASHSEED so that the generated SMT text is identical from run to run. C12 is a partial claim since DESIGN.md section 10.14 "
+         "(linear-combination domain for trsbox / alt_trust_step); the only property not claimed is C05.")
 
 def lean_step(repo, tier, root):
     """lemma L1 (pure mathematics, independent of /repo): accepted by Lean 4 + Mathlib.  setup_cmd compiles it and records the hash of the accepted source;
